@@ -92,6 +92,43 @@ class _ScriptedSecrets:
 # ---------------------------------------------------------------- sign
 
 
+def _search_aux(d0, pt, msg, seed, what):
+    """First aux = SHA256(seed || i) for which the named intermediate value of BIP340 default signing starts with a zero
+    byte: t (masked key), rand (nonce hash), Rx, e (challenge), s."""
+    px = pt[0]
+    d = d0 if pt[1] % 2 == 0 else N - d0
+    for i in range(6000):
+        aux = hashlib.sha256(seed + i.to_bytes(4, "big")).digest()
+        t = ref.b32(d ^ int.from_bytes(ref.tagged_hash("BIP0340/aux", aux), "big"))
+        if what == "t":
+            if t[0] == 0:
+                return aux
+            continue
+        rand = ref.tagged_hash("BIP0340/nonce", t + ref.b32(px) + msg)
+        if what == "rand":
+            if rand[0] == 0:
+                return aux
+            continue
+        k0 = int.from_bytes(rand, "big") % N
+        if k0 == 0:
+            continue
+        R = ec.mul(k0, G)
+        if what == "Rx":
+            if ref.b32(R[0])[0] == 0:
+                return aux
+            continue
+        e = ref.challenge(R[0], px, msg)
+        if what == "e":
+            if ref.b32(e)[0] == 0:
+                return aux
+            continue
+        k = k0 if R[1] % 2 == 0 else N - k0
+        if ref.b32((k + e * d) % N)[0] == 0:
+            return aux
+    return None
+
+
+
 def _len_class(n):
     if n == 0:
         return "nt:msg-len-0"
@@ -167,6 +204,13 @@ def check_sign(case):
             f.expect(fresh, f"sign/aux-omitted/not-fresh/{par}", "the same signature was returned by two calls without aux")
         return cls, f
 
+    if case.get("search"):
+        # intermediate values of the signing algorithm with a leading zero byte (each has probability 1/256 under random
+        # inputs): the aux value is found by trying hash-derived candidates against the reference computation
+        aux = _search_aux(d, pt, msg, aux, case["search"])
+        if aux is None:
+            return ["search-exhausted"], f
+        cls.append("nt:lead0-" + case["search"])
     if aux == bytes(32):
         cls.append("aux-zeros")
     elif aux == b"\xff" * 32:
@@ -226,7 +270,11 @@ def sign_cases(draw):
     msg = draw(messages())
     if kind == "sign":
         d = draw(keys())
-        return {"kind": kind, "key": hx(ref.b32(d)), "msg": hx(msg), "aux": hx(draw(auxes()))}
+        case = {"kind": kind, "key": hx(ref.b32(d)), "msg": hx(msg), "aux": hx(draw(auxes()))}
+        mode = draw(st.sampled_from([None] * 12 + ["t", "t", "rand", "rand", "Rx", "Rx", "e", "s"]))
+        if mode:
+            case["search"] = mode
+        return case
     if kind == "aux-omitted":
         d = draw(keys())
         return {"kind": kind, "key": hx(ref.b32(d)), "msg": hx(msg), "aux": None, "rng": hx(draw(st.binary(min_size=8, max_size=8)))}
@@ -627,7 +675,7 @@ def targets(tier):
             strategy=lambda tier: sign_cases(),
             budget={"quick": 400, "thorough": 8000},
             required=[
-                "nt:odd-y-key", "even-y-key", "nt:odd-y-nonce", "even-y-nonce", "nt:aux-omitted", "aux-zeros", "aux-ones",
+                "nt:odd-y-key", "even-y-key", "nt:odd-y-nonce", "even-y-nonce", "nt:aux-omitted", "aux-zeros", "aux-ones", "nt:lead0-t", "nt:lead0-rand", "nt:lead0-Rx", "nt:lead0-e", "nt:lead0-s",
                 "aux-random", "nt:refuse-key-zero", "nt:refuse-key-ge-n", "nt:refuse-key-len-ne-32", "nt:msg-len-0",
                 "msg-len-32", "nt:msg-len-gt-32", "nt:msg-len-lt-32", "nt:key-leading-zero",
             ],
